@@ -94,7 +94,7 @@ example : parseTop ⟨{ ap := true }, .str, .value⟩ [0x31, 0x65, 0x39, 0x39, 0
     (Or.inr (by decide)) rfl (fun _ => rfl)
   rw [hp]; simp [canonM, Spec.Canon.numOf, specCfg] at hc; rw [← hc]; rfl
 
-example : parseTop ⟨{}, .str, .value⟩ [0x31, 0x65, 0x39, 0x39, 0x39] = .err .NumberOutOfRange 5 := rfl
+example : (parseTop ⟨{}, .str, .value⟩ [0x31, 0x65, 0x39, 0x39, 0x39]).isErr .NumberOutOfRange 5 = true := by decide +kernel
 
 /-- **C01 (complete, skipped content).** `ignore_value` accepts every JSON text: it checks neither
     depth, surrogate pairing, UTF-8 validity nor numeric range. -/
